@@ -253,6 +253,8 @@ type SeqSpec struct {
 	Alphabet func(pre *State, depth int) []Action
 	// Check judges one transition; path is the action sequence that led to pre.
 	Check func(path []Action, pre *State, a Action, out StepOut, post *State) []Finding
+	// CheckW is like Check but also receives the live world (in the post-state).
+	CheckW func(w *World, path []Action, pre *State, a Action, out StepOut, post *State) []Finding
 	// Expand says whether post may be expanded further (state-size caps).
 	Expand func(post *State) bool
 	// Deadline bounds the wall time of a unit (0 = none).
@@ -336,7 +338,14 @@ func runSeq(spec *SeqSpec, root []Action, firstFilter func(i int) bool, w *Worke
 			if !wld.Dead() {
 				post = wld.State()
 			}
-			for _, f := range spec.Check(n.path, pre, a, out, post) {
+			var found []Finding
+			if spec.Check != nil {
+				found = spec.Check(n.path, pre, a, out, post)
+			}
+			if spec.CheckW != nil {
+				found = append(found, spec.CheckW(wld, n.path, pre, a, out, post)...)
+			}
+			for _, f := range found {
 				if f.Replay == nil {
 					f.Replay = replayOf(spec.Cfg, n.path, a)
 				}
